@@ -29,6 +29,8 @@ type fnType struct {
 	fnames   []string      // struct: the field names (their types are in res)
 	variadic bool          // func: the last parameter is variadic (a list)
 	nilable  bool          // map: nil-ness is represented (go_nmap = option go_map); all maps but unnamed-map struct fields
+	monadic  bool          // func: the function can panic: its result type is res (...) (a parameter that receives a function literal)
+	ordered  bool          // elem: a cmp.Ordered type parameter (cmp.Compare on it is the argument cmp_<T>)
 }
 
 var (
@@ -91,8 +93,16 @@ func (t *fnType) coq() string {
 			}
 			ps = append(ps, s)
 		}
-		ps = append(ps, tupleType(t.res))
+		if t.monadic {
+			ps = append(ps, "res "+paren(tupleType(t.res)))
+		} else {
+			ps = append(ps, tupleType(t.res))
+		}
 		return strings.Join(ps, " -> ")
+	case "ptr":
+		return "option " + parenT(t.elem.coq())
+	case "sres":
+		return "go_sres " + parenT(t.elem.coq())
 	}
 	return "?"
 }
@@ -328,30 +338,31 @@ type fnFunc struct {
 	decl    *ast.FuncDecl
 	recvVar string
 	// signature (filled by translate)
-	fields    []string // receiver fields used, struct order
-	mutFields []string
-	logs      []string // logged callbacks (field or parameter names), first-use order
-	params    []*fnParam
-	results   []*fnType
-	needZero  bool
-	zeroType  string
-	zeroTypes []string        // the type parameters whose zero value is an argument (zero_T), in signature order
-	recvObj   *ast.Object     // a function literal translated as a method of the pointer it captures: that variable
-	recvType  string          // the struct whose methods can be called on the receiver (methods, literals, constructors)
-	ctor      *ctorInfo       // a constructor: q := &T{...} ... return q
-	retRecv   bool            // the Go result is the receiver itself: not a result of the translation
-	namedRecv bool            // a method of a named map type (type Set[T] map[T]struct{}): the receiver is the first parameter
-	retFresh  bool            // every map result is a new map (make, maps.Clone, such a call, or a local only assigned those)
-	fatFields map[string]bool // slice fields with a tracked capacity (companion argument <field>_spare)
-	reshapes  map[string]bool // fields assigned as a whole (re-sliced, appended to, replaced), here or in a callee
-	litOf     string          // ... and the function it sits in
-	pure      bool
-	fuel      bool
-	extras    []*fnExtra // oracle / external function arguments, in order
-	tparams   []string
-	state     int // 0 new, 1 busy, 2 done, 3 lost
-	text      string
-	lostMsg   string
+	fields        []string // receiver fields used, struct order
+	mutFields     []string
+	logs          []string // logged callbacks (field or parameter names), first-use order
+	params        []*fnParam
+	results       []*fnType
+	needZero      bool
+	zeroType      string
+	zeroTypes     []string        // the type parameters whose zero value is an argument (zero_T), in signature order
+	recvObj       *ast.Object     // a function literal translated as a method of the pointer it captures: that variable
+	recvType      string          // the struct whose methods can be called on the receiver (methods, literals, constructors)
+	ctor          *ctorInfo       // a constructor: q := &T{...} ... return q
+	retRecv       bool            // the Go result is the receiver itself: not a result of the translation
+	namedRecv     bool            // a method of a named map type (type Set[T] map[T]struct{}): the receiver is the first parameter
+	retFresh      bool            // every map result is a new map (make, maps.Clone, such a call, or a local only assigned those)
+	fatFields     map[string]bool // slice fields with a tracked capacity (companion argument <field>_spare)
+	reshapes      map[string]bool // fields assigned as a whole (re-sliced, appended to, replaced), here or in a callee
+	litOf         string          // ... and the function it sits in
+	monadicParams map[int]bool    // function-typed parameters that receive a function literal somewhere: called through the res monad
+	pure          bool
+	fuel          bool
+	extras        []*fnExtra // oracle / external function arguments, in order
+	tparams       []string
+	state         int // 0 new, 1 busy, 2 done, 3 lost
+	text          string
+	lostMsg       string
 }
 
 type fnExtra struct {
@@ -380,6 +391,8 @@ type fnGen struct {
 	// callbacks installed elsewhere): spec "writes:Type.field:f1,f2"
 	writes  map[string][]string
 	foreign map[string][]*ast.File // parsed packages of the same module, by import path
+	// "F.param": function-typed parameters declared monadic by the spec monadic:F.param
+	monadicSpecs []string
 }
 
 type fnBind struct {
@@ -431,6 +444,7 @@ type fnCtx struct {
 	loopInfo    map[string]*loopInfo
 	extras      map[string]*fnVar // by key
 	fat         map[*fnVar]*fnVar // slice variable -> the rest of its backing array (up to cap)
+	lit         *litCtx           // while the body of a function literal is translated
 }
 
 func (c *fnCtx) lostAt(n ast.Node, format string, args ...any) {
@@ -632,17 +646,30 @@ func (c *fnCtx) typeParams(fl *ast.FieldList) {
 	if fl == nil {
 		return
 	}
+	// the abstract elements first: `S ~[]E, E any` names E before it declares it
+	for _, f := range fl.List {
+		if ct, ok := f.Type.(*ast.Ident); ok && (ct.Name == "any" || ct.Name == "comparable") {
+			for _, nm := range f.Names {
+				c.elemT[nm.Name] = &fnType{k: "elem", name: nm.Name}
+			}
+		}
+	}
 	for _, f := range fl.List {
 		for _, nm := range f.Names {
 			switch ct := f.Type.(type) {
 			case *ast.Ident:
 				if ct.Name == "any" || ct.Name == "comparable" {
-					c.elemT[nm.Name] = &fnType{k: "elem", name: nm.Name}
 					continue
 				}
 			case *ast.UnaryExpr:
 				if ct.Op == token.TILDE {
 					c.elemT[nm.Name] = c.goType(ct.X)
+					continue
+				}
+			case *ast.SelectorExpr:
+				// cmp.Ordered: an abstract element; cmp.Compare on it is the function argument cmp_<T>
+				if id, ok := ct.X.(*ast.Ident); ok && id.Name == "cmp" && id.Obj == nil && ct.Sel.Name == "Ordered" {
+					c.elemT[nm.Name] = &fnType{k: "elem", name: nm.Name, ordered: true}
 					continue
 				}
 			}
@@ -679,6 +706,12 @@ func fnGenerate(f *ast.File, specs []string) (string, []string) {
 	for _, sp := range specs {
 		if strings.HasPrefix(sp, "extern:") {
 			g.externs[strings.TrimPrefix(sp, "extern:")] = true
+			continue
+		}
+		if strings.HasPrefix(sp, "monadic:") {
+			// monadic:F.param -- the function-typed parameter of F is called through the res monad
+			// (callers in other files hand it function literals that can panic)
+			g.monadicSpecs = append(g.monadicSpecs, strings.TrimPrefix(sp, "monadic:"))
 			continue
 		}
 		if strings.HasPrefix(sp, "writes:") {
@@ -724,6 +757,7 @@ func fnGenerate(f *ast.File, specs []string) (string, []string) {
 			fn.lostMsg = "function not found"
 		}
 	}
+	g.markMonadicParams()
 	var b strings.Builder
 	b.WriteString("From Mds Require Import Common.FnRt.\nLocal Open Scope Z_scope.\n\n")
 	var emitted []string
@@ -783,6 +817,20 @@ func (g *fnGen) translate(fn *fnFunc, emit func(*fnFunc)) {
 				}
 			} else if cal == fn {
 				fail("unsupported recursion at line %d", fset.Position(call.Pos()).Line)
+			}
+			// translated functions of the file handed on as function values
+			for _, a := range call.Args {
+				if id, ok := a.(*ast.Ident); ok {
+					if cal := g.funcValueOf(id); cal != nil && cal != fn {
+						if cal.state == 1 {
+							fail("unsupported recursion through %s at line %d", cal.spec, fset.Position(call.Pos()).Line)
+						}
+						emit(cal)
+						if cal.state == 3 {
+							fail("callee %s is lost", cal.spec)
+						}
+					}
+				}
 			}
 		}
 		return true
